@@ -673,6 +673,15 @@ class Dataset(AbstractDataset, dict, OpMixin, GetSetDelAttrMixin):
         else:
             values = np.asarray(values)
 
+        if self.axes[axis].size == 0 and np.size(values) > 0:
+            # nothing to take from an empty axis: reindex each variable on its own
+            name = self.axes[axis].name
+            dataset = self.__class__()
+            for k in self.keys():
+                dataset[k] = self[k].reindex_axis(values, axis=name, fill_value=fill_value, raise_error=raise_error, method=method) if name in self[k].dims else self[k]
+            dataset.attrs.update(self.attrs)
+            return dataset
+
         # take axis, do not raise error
         dataset = self.take_axis(values, axis=axis, indexing='label', 
                                  mode='raise' if raise_error else 'clip')
